@@ -165,7 +165,7 @@ theorem extraTbs_eq (p : Program) (st : Stage) :
   | raise1 e => rfl
   | raiseMulti es me => rfl
   | assertFail e ds => rfl
-  | fixtureFail ds e se => rfl
+  | fixtureFail ds e ces se => rfl
 
 theorem requiredTbs_eq (p : Program) (ff0 : Bool) (t : Trace) :
     requiredTbs p ff0 t = (raisedAll p ff0 t).filter (fun e => needsTb e.cls) ++ (executed p t).flatMap (extraTbs p) := by
@@ -602,7 +602,7 @@ theorem unique_cov (hskip : p.skipDeco = none) (o : Outcome) (d : Details) (r : 
       obtain ⟨x, hx, he⟩ := h
       cases he
       exact ⟨_, hterm _ (by simp only [uqTerm, List.mem_map]; exact ⟨x, hx, rfl⟩), rfl, freeze_user _ _⟩
-    | fixtureFail ds e se =>
+    | fixtureFail ds e ces se =>
       rw [ht] at h hterm
       simp only [List.mem_map] at h
       obtain ⟨x, hx, he⟩ := h
